@@ -1966,7 +1966,11 @@ CK_RV SoftHSM::C_FindObjectsInit(CK_SESSION_HANDLE hSession, CK_ATTRIBUTE_PTR pT
 	FindOperation *findOp = FindOperation::create();
 
 	// Check if we are out of memory
-	if (findOp == NULL_PTR) return CKR_HOST_MEMORY;
+	if (findOp == NULL_PTR)
+	{
+		session->resetOp();
+		return CKR_HOST_MEMORY;
+	}
 
 	std::set<OSObject*> allObjects;
 	token->getObjects(allObjects);
@@ -2028,6 +2032,7 @@ CK_RV SoftHSM::C_FindObjectsInit(CK_SESSION_HANDLE hSession, CK_ATTRIBUTE_PTR pT
 							if (!token->decrypt(attr.getByteStringValue(), bsAttrValue))
 							{
 								delete findOp;
+								session->resetOp();
 								return CKR_GENERAL_ERROR;
 							}
 						}
@@ -2065,6 +2070,7 @@ CK_RV SoftHSM::C_FindObjectsInit(CK_SESSION_HANDLE hSession, CK_ATTRIBUTE_PTR pT
 			if (hObject == CK_INVALID_HANDLE)
 			{
 				delete findOp;
+				session->resetOp();
 				return CKR_GENERAL_ERROR;
 			}
 			handles.insert(hObject);
